@@ -133,6 +133,8 @@ protected:
         auto const & term = termIt->second;
         auto & names_ = _namesForTerm(term);
         names_.erase(std::find(names_.begin(), names_.end(), name));
+        // a term without names must not be reported as named any more
+        if (names_.empty()) { termToNames.erase(term); }
         nameToTerm.erase(termIt);
         return true;
     }
